@@ -182,3 +182,123 @@ Proof.
   - rewrite Eins. exact Hn3.
   - rewrite Eins, Hout'. exact Hc.
 Qed.
+
+(* ---------------- B.3 totality on well-formed circuits ---------------- *)
+Lemma reach_key c outs l : WF c -> (forall o, In o outs -> has_gate c o = true) ->
+  reach (ops_of c) outs l -> key c l.
+Proof.
+  intros W Ho. apply reach_closed.
+  - intros s Hs. apply has_gate_key, Ho; exact Hs.
+  - intros a b _ Hb. unfold ops_of in Hb. destruct (dget (gates c) a) as [g|] eqn:E; [|contradiction].
+    apply has_gate_key. eapply (wf_ops c W); eassumption.
+Qed.
+
+Lemma dfs_emission_total c tu : WF c -> exists order, dfs_emission c tu = Ok order.
+Proof.
+  intros W. assert (Hse : starts_exist false c (Some (outputs c))) by (intros s Hs; apply (wf_outs c W); exact Hs).
+  destruct (traverse_total DFS false c (Some (outputs c)) tu W Hse) as [log Hlog].
+  unfold dfs_emission. rewrite Hlog. simpl. eauto.
+Qed.
+
+Theorem rr_total allow c : WF c -> exists c', remove_redundant_gates allow c = Ok c'.
+Proof.
+  intros W. destruct (dfs_emission_total c false W) as [order Ho].
+  pose proof Ho as Ho'. apply dfs_emission_false in Ho'. destruct Ho' as (log & Hlog & Eo).
+  destruct (dfs_exits_wf c (outputs c) false log W (wf_outs c W) Hlog) as (Hnd & Hre & Hbe). rewrite <- Eo in *.
+  assert (Hkey : forall l, In l order -> key c l).
+  { intros l Hl. eapply reach_key; [exact W|apply (wf_outs c W)|apply Hre; exact Hl]. }
+  destruct (rr_fold_total c order empty_circuit Hnd) as [n1 Hn1].
+  { intros l Hl. split; [reflexivity|apply Hkey; exact Hl]. }
+  { intros pre a post E b Hb. right. eapply Hbe; eassumption. }
+  destruct (rr_fold_inv c order _ _ Hn1) as (_ & Hall & Hg1 & _ & _ & _ & Hin1). simpl in Hg1, Hin1.
+  assert (W1 : WF n1) by (eapply rr_fold_wf; [apply WF_empty|exact Hn1]).
+  assert (Hhas1 : forall l, has_gate n1 l = true <-> In l order).
+  { intros l. rewrite has_gate_key, Hg1, dkeys_map_keys. tauto. }
+  destruct (add_inputs_total (rr_extra0 allow n1 c) n1) as [n2 Hn2].
+  { unfold rr_extra0. destruct allow; [constructor|apply NoDup_filter, (wf_inputs_nodup c W)]. }
+  { unfold rr_extra0. destruct allow; [intros l []|]. intros l Hl. apply filter_In in Hl.
+    destruct Hl as [_ Hl]. apply negb_true_iff in Hl. exact Hl. }
+  destruct (add_inputs_inv _ _ _ Hn2) as (_ & _ & Hg2 & Hin2 & _ & _).
+  assert (W2 : WF n2) by (eapply add_inputs_wf; eassumption).
+  set (ins := filter (fun i => memb i (inputs n2)) (inputs c)).
+  destruct (set_inputs_total n2 ins W2) as [n3 Hn3].
+  { apply NoDup_filter, (wf_inputs_nodup c W). }
+  { intros i. unfold ins. rewrite filter_In, memb_In. split; [tauto|]. intros Hi. split; [|exact Hi].
+    rewrite Hin2, Hin1 in Hi. apply in_app_or in Hi. destruct Hi as [Hi|Hi].
+    - apply filter_In in Hi. destruct Hi as [Hi Ht]. unfold is_input_at in Ht.
+      destruct (Hall i Hi) as (_ & g & Hg). rewrite (gate_at_get c i g Hg) in Ht.
+      apply (wf_inputs c W). exists g. split; [exact Hg|apply gtype_beq_eq; exact Ht].
+    - unfold rr_extra0 in Hi. destruct allow; [destruct Hi|]. apply filter_In in Hi. tauto. }
+  pose proof (set_inputs_inv _ _ _ Hn3) as E3.
+  assert (Hex : forall o, In o (outputs c) -> has_gate n3 o = true).
+  { intros o Hoo. rewrite E3. unfold has_gate; simpl. rewrite Hg2. unfold dmem. rewrite dget_app.
+    assert (Hin : In o order) by (apply Hre, reach_start; exact Hoo).
+    apply Hhas1 in Hin. unfold has_gate, dmem in Hin. destruct (dget (gates n1) o); [reflexivity|discriminate]. }
+  exists (set_outputs_raw n3 (outputs c)). subst n3. subst ins.
+  eapply rr_fold; try eassumption.
+  unfold set_outputs. rewrite (proj2 (check_gates_exist_ok _ _) Hex). reflexivity.
+Qed.
+
+(* ---------------- B.1 the gates of the result ---------------- *)
+Definition reachable (c : circuit) (l : label) : Prop := reach (ops_of c) (outputs c) l.
+
+Theorem rr_effect allow c c' : WF c -> remove_redundant_gates allow c = Ok c' ->
+  NoDup (dkeys (gates c')) /\
+  (forall l g, dget (gates c') l = Some g <->
+     (reachable c l /\ dget (gates c) l = Some g) \/
+     (allow = false /\ ~ reachable c l /\ In l (inputs c) /\ g = mkGate INPUT [])) /\
+  outputs c' = outputs c /\
+  inputs c' = filter (fun i => has_gate c' i) (inputs c) /\
+  (allow = false -> inputs c' = inputs c).
+Proof.
+  intros W H. destruct (rr_spec allow c c' H) as (order & Ho & S).
+  apply dfs_emission_false in Ho. destruct Ho as (log & Hlog & Eo).
+  destruct (dfs_exits_wf c (outputs c) false log W (wf_outs c W) Hlog) as (Hnd & Hre & Hbe). rewrite <- Eo in *.
+  pose proof (rs_gates _ _ _ _ S) as Hg. pose proof (rs_extra _ _ _ _ S) as Hx.
+  assert (Hdget : forall l g, dget (gates c') l = Some g <->
+     (reachable c l /\ dget (gates c) l = Some g) \/
+     (allow = false /\ ~ reachable c l /\ In l (inputs c) /\ g = mkGate INPUT [])).
+  { intros l g. unfold reachable. rewrite <- Hre, Hg, dget_app.
+    assert (Hdec : In l order \/ ~ In l order) by (destruct (memb l order) eqn:E; [left; apply memb_In|right; apply memb_nIn]; exact E).
+    destruct Hdec as [Hl|Hl].
+    - rewrite dget_map_keys by exact Hl. destruct (rs_has _ _ _ _ S l Hl) as (g0 & Hg0).
+      rewrite (gate_at_get c l g0 Hg0), Hg0. split; [intros E; left; auto|]. intros [[_ E]|(_ & Hn & _)]; [exact E|contradiction].
+    - rewrite dget_map_keys_none by exact Hl.
+      assert (Hdec2 : In l (rr_extra allow order c) \/ ~ In l (rr_extra allow order c)).
+      { destruct (memb l (rr_extra allow order c)) eqn:E; [left; apply memb_In|right; apply memb_nIn]; exact E. }
+      destruct Hdec2 as [Hl2|Hl2].
+      + rewrite (dget_map_keys (fun _ => mkGate INPUT []) _ l Hl2). apply Hx in Hl2. destruct Hl2 as (Ea & Hi & _).
+        split; [intros [= <-]; right; auto|]. intros [[Hr _]|(_ & _ & _ & ->)]; [contradiction|reflexivity].
+      + rewrite (dget_map_keys_none (fun _ => mkGate INPUT []) _ l Hl2). split; [discriminate|].
+        intros [[Hr _]|(Ea & _ & Hi & _)]; [contradiction|]. exfalso. apply Hl2, Hx. auto. }
+  split; [apply (wf_gkeys c' (rs_wf _ _ _ _ S))|]. split; [exact Hdget|]. split; [apply (rs_outputs _ _ _ _ S)|].
+  assert (Hin : forall i, In i (inputs c) ->
+            memb i (filter (is_input_at c) order ++ rr_extra allow order c) = has_gate c' i).
+  { intros i Hi. apply (wf_inputs c W) in Hi. destruct Hi as (g & Hgi & Ht).
+    assert (Hi : In i (inputs c)) by (apply (wf_inputs c W); eauto).
+    destruct (has_gate c' i) eqn:E.
+    - apply memb_In. apply has_gate_get in E. destruct E as [g' E]. apply Hdget in E.
+      destruct E as [[Hr _]|(Ea & Hn & _ & _)].
+      + apply in_or_app; left. apply filter_In. split; [apply Hre; exact Hr|].
+        unfold is_input_at. rewrite (gate_at_get c i g Hgi), Ht. reflexivity.
+      + apply in_or_app; right. apply Hx. split; [exact Ea|]. split; [exact Hi|]. rewrite Hre. exact Hn.
+    - apply memb_nIn. intros Hm. apply in_app_or in Hm.
+      assert (Hsome : exists g', dget (gates c') i = Some g').
+      { destruct Hm as [Hm|Hm].
+        - apply filter_In in Hm. destruct Hm as [Hm _]. exists g. apply Hdget. left. split; [apply Hre; exact Hm|exact Hgi].
+        - apply Hx in Hm. destruct Hm as (Ea & _ & Hn). exists (mkGate INPUT []). apply Hdget. right.
+          rewrite Hre in Hn. auto. }
+      destruct Hsome as [g' Hg']. apply get_has_gate in Hg'. congruence. }
+  assert (Ein : inputs c' = filter (fun i => has_gate c' i) (inputs c)).
+  { rewrite (rs_inputs _ _ _ _ S). apply filter_ext_in. exact Hin. }
+  split; [exact Ein|]. intros Ea. rewrite Ein.
+  assert (Hall : forall i, In i (inputs c) -> has_gate c' i = true).
+  { intros i Hi. rewrite <- (Hin i Hi). apply memb_In.
+    destruct (memb i order) eqn:E.
+    - apply memb_In in E. apply in_or_app; left. apply filter_In. split; [exact E|].
+      apply (wf_inputs c W) in Hi. destruct Hi as (g & Hgi & Ht). unfold is_input_at.
+      rewrite (gate_at_get c i g Hgi), Ht. reflexivity.
+    - apply memb_nIn in E. apply in_or_app; right. apply Hx. auto. }
+  clear - Hall. induction (inputs c) as [|i l IH]; simpl; [reflexivity|].
+  rewrite (Hall i (or_introl eq_refl)). f_equal. apply IH. intros j Hj; apply Hall; right; exact Hj.
+Qed.
